@@ -575,8 +575,14 @@ fn flag_flip(cfg: &Cfg) {
 fn stress(cfg: &Cfg, rng: &mut Rng) {
     let threads = 8u32;
     let calls = cfg.pick(400, 4000) as u32;
-    for ep in [Ep::Fe, Ep::Be, Ep::Gpu] {
+    // each endpoint on a blocking socket and on a non-blocking one (the library then retries on
+    // EAGAIN itself: a transient "would block" must not end a call whose request is already written)
+    for (ep, nonblocking) in [(Ep::Fe, false), (Ep::Be, false), (Ep::Gpu, false), (Ep::Fe, true), (Ep::Be, true), (Ep::Gpu, true)] {
+        let calls = if nonblocking { calls / 4 } else { calls };
         let (endpoint, peer, ep_fd) = make_endpoint(ep, true);
+        if nonblocking {
+            sys::set_nonblocking(ep_fd, true);
+        }
         let peer_fd = peer.as_raw_fd();
         let c = ctl::global();
         c.reset();
@@ -635,7 +641,7 @@ fn stress(cfg: &Cfg, rng: &mut Rng) {
         unsafe { libc::shutdown(ep_fd, libc::SHUT_RDWR) };
         let (served, overlap) = peer_h.join().unwrap_or((0, 0));
         c.reset();
-        let epn = format!("{ep:?}").to_lowercase();
+        let epn = format!("{ep:?}{}", if nonblocking { "-nonblocking" } else { "" }).to_lowercase();
         report::eval(1);
         report::count(&format!("stress.{epn}.calls"), served as u64);
         report::distinct_str(&format!("stress:{epn}:{}", rng.0));
